@@ -17,7 +17,7 @@ func init() { registry["C03"] = checkC03 }
 // concrete spellings of the token kinds of LuaGrammar.tla (the renderer rotates through them)
 var tokSpell = map[string][]string{
 	"name":   {"a", "b", "x1", "_y", "foo", "self", "A_9"},
-	"number": {"1", "0x1F", "1.5", "1e3", "0x.8p1", "3LL", ".5", "5.", "0xA.8p-2", "7ULL", "9e+2", "12ll", "0X1p4", "1E-2"},
+	"number": {"0xFFFFFFFFFFFFFFFFULL", "0x8000000000000000LL", "0xcbf29ce484222325ull", "18446744073709551615ULL", "1", "0x1F", "1.5", "1e3", "0x.8p1", "3LL", ".5", "5.", "0xA.8p-2", "7ULL", "9e+2", "12ll", "0X1p4", "1E-2"},
 	"string": {`"s"`, `'s'`, `[[s]]`, `[==[s]==]`, `"a\nb"`, `'\x41'`, `"\u{48}"`, "\"\\z  x\"", `"\065"`, `'\''`, `"\\"`, "[[\nml]]", `"\a\b\f\r\t\v"`, "\"l1\\\nl2\""},
 	"unop":   {"not", "#"},
 	"binop":  {"+", "*", "/", "//", "%", "^", "..", "==", "~=", "<", "<=", ">", ">=", "and", "or", "&", "|", "<<", ">>"},
@@ -81,7 +81,7 @@ type parseRes struct {
 }
 
 func checkC03(c *Ctx) {
-	c.Rep.Rule = "LuaGrammar.tla (an explicit stack machine over 37 token kinds for the Lua 5.3/5.4 statement and expression grammar) is explored breadth-first to MaxTok tokens: the emitted complete chunks are valid by construction and are, as a set, the reference recogniser for the mutants derived from them (single-token deletion, substitution by every kind, adjacent swap, duplication; a mutant no longer than MaxTok is valid iff TLC enumerated it). Every chunk and mutant is spelled with rotating concrete spellings (numerals incl. hex floats and LL/ULL, all string forms and escapes, every operator) and separators (spaces, tabs, LF/CRLF/CR, short/long comments) and given to the real parser entry (parser.BeginAnalyze); a seeded sample and every disagreement also go through the real server's publishDiagnostics; oracle: type-1 diagnostic present <=> not valid; distinct = distinct token-kind sequences"
+	c.Rep.Rule = "LuaGrammar.tla (an explicit stack machine over 37 token kinds for the Lua 5.3/5.4 statement and expression grammar) is explored breadth-first to MaxTok tokens: the emitted complete chunks are valid by construction and are, as a set, the reference recogniser for the mutants derived from them (single-token deletion, substitution by every kind, adjacent swap, duplication; a mutant no longer than MaxTok is valid iff TLC enumerated it). Four focus frames (parameter list, for-in name list, attributed local name list, function name path) put one list non-terminal into a fixed frame and enumerate it to 11 (13) tokens; their mutants are single-token insertions, deletions, substitutions and swaps inside the frame's hole. Every chunk and mutant is spelled with rotating concrete spellings (numerals incl. hex floats and LL/ULL, all string forms and escapes, every operator) and separators (spaces, tabs, LF/CRLF/CR, short/long comments) and given to the real parser entry (parser.BeginAnalyze); a seeded sample and every disagreement also go through the real server's publishDiagnostics; oracle: type-1 diagnostic present <=> not valid; distinct = distinct token-kind sequences"
 	c.Rep.Assumptions = []string{
 		"context conditions (break outside a loop, '...' outside a vararg function, undefined/duplicate labels, assignment to <const>) are not grammar: not generated",
 		"token spellings and separators are a fixed table in the harness; label names are made unique",
@@ -94,7 +94,7 @@ func checkC03(c *Ctx) {
 	valid := map[string]bool{}
 	var chunks [][]string
 	st, err := c.TLC(tlc.Run{Module: "LuaGrammar", Workers: 8, Timeout: 40 * time.Minute, JavaOpts: "-Xmx12g -Xmn256m -XX:ParallelGCThreads=4",
-		Cfg: fmt.Sprintf("CONSTANTS\n  MaxTok = %d\n  MaxStack = 14\n  DevParen = FALSE\nINIT Init\nNEXT Next\nINVARIANTS Bounded Emit\nCHECK_DEADLOCK FALSE\n", n)},
+		Cfg: fmt.Sprintf("CONSTANTS\n  MaxTok = %d\n  MaxStack = 14\n  Focus = \"chunk\"\n  DevParen = FALSE\nINIT Init\nNEXT Next\nINVARIANTS Bounded Emit\nCHECK_DEADLOCK FALSE\n", n)},
 		func(j json.RawMessage) {
 			var o struct {
 				Toks []string `json:"toks"`
@@ -115,7 +115,7 @@ func checkC03(c *Ctx) {
 	// the as-built language under the listed deviation (same machine, DevParen = TRUE)
 	validDev := map[string]bool{}
 	st2, err := c.TLC(tlc.Run{Module: "LuaGrammar", Workers: 8, Timeout: 40 * time.Minute, JavaOpts: "-Xmx12g -Xmn256m -XX:ParallelGCThreads=4",
-		Cfg: fmt.Sprintf("CONSTANTS\n  MaxTok = %d\n  MaxStack = 14\n  DevParen = TRUE\nINIT Init\nNEXT Next\nINVARIANTS Bounded Emit\nCHECK_DEADLOCK FALSE\n", n)},
+		Cfg: fmt.Sprintf("CONSTANTS\n  MaxTok = %d\n  MaxStack = 14\n  Focus = \"chunk\"\n  DevParen = TRUE\nINIT Init\nNEXT Next\nINVARIANTS Bounded Emit\nCHECK_DEADLOCK FALSE\n", n)},
 		func(j json.RawMessage) {
 			var o struct {
 				Toks []string `json:"toks"`
@@ -189,6 +189,96 @@ func checkC03(c *Ctx) {
 				mut(s, "substitute")
 			}
 		}
+	}
+	// ---- focus frames: one list non-terminal inside a fixed frame, enumerated to a larger bound; edits stay inside the
+	// frame's hole (its alphabet has no brackets, so an edit cannot escape the frame), hence an edited text of at most
+	// the bound's length is valid iff TLC enumerated it ----
+	type focus struct {
+		name       string
+		pre, suf   int // frame tokens before and after the hole
+		alphabet   []string
+		bound      int
+	}
+	fb := 11
+	if c.Thorough() {
+		fb = 13
+	}
+	for _, fc := range []focus{
+		{"params", 3, 2, []string{"name", ",", "..."}, fb},
+		{"forin", 2, 4, []string{"name", ","}, fb},
+		{"attnames", 1, 1, []string{"name", ",", "attr"}, fb - 3},
+		{"funcname", 1, 3, []string{"name", ".", ":"}, fb},
+	} {
+		fvalid := map[string]bool{}
+		var fchunks [][]string
+		stf, err := c.TLC(tlc.Run{Module: "LuaGrammar", Workers: 4, Timeout: 20 * time.Minute,
+			Cfg: fmt.Sprintf("CONSTANTS\n  MaxTok = %d\n  MaxStack = 14\n  Focus = %q\n  DevParen = FALSE\nINIT Init\nNEXT Next\nINVARIANTS Bounded Emit\nCHECK_DEADLOCK FALSE\n", fc.bound, fc.name)},
+			func(j json.RawMessage) {
+				var o struct {
+					Toks []string `json:"toks"`
+				}
+				if json.Unmarshal(j, &o) != nil {
+					return
+				}
+				k := strings.Join(o.Toks, " ")
+				if !fvalid[k] {
+					fvalid[k] = true
+					fchunks = append(fchunks, o.Toks)
+				}
+			})
+		if err != nil || stf.ExitCode != 0 {
+			c.Rep.Fatal(fmt.Sprintf("LuaGrammar.tla (focus %s) run failed (exit %d): %v\n%s", fc.name, stf.ExitCode, err, lastLines(stf.Out, 12)))
+			return
+		}
+		sort.Slice(fchunks, func(i, j int) bool { return strings.Join(fchunks[i], " ") < strings.Join(fchunks[j], " ") })
+		nmut := 0
+		for _, ch := range fchunks {
+			key := strings.Join(ch, " ")
+			h := hash64(key, c.Seed)
+			addCase(ch, true, "valid/"+fc.name, h)
+			fmut := func(m []string, how string) {
+				if len(m) > fc.bound {
+					return
+				}
+				// only one <close> per statement is legal Lua; the attribute spelling rotates, so at most one attribute
+				na := 0
+				for _, t := range m {
+					if t == "attr" {
+						na++
+					}
+				}
+				mk := strings.Join(m, " ")
+				if na > 1 || fvalid[mk] || seenM["F:"+fc.name+":"+mk] {
+					return
+				}
+				seenM["F:"+fc.name+":"+mk] = true
+				nmut++
+				addCase(m, false, how+"/"+fc.name, hash64(mk, c.Seed))
+			}
+			lo, hi := fc.pre, len(ch)-fc.suf // the hole is ch[lo:hi]
+			for i := lo; i <= hi; i++ {
+				for _, a := range fc.alphabet {
+					ins := append(append(append([]string{}, ch[:i]...), a), ch[i:]...)
+					fmut(ins, "insert")
+				}
+				if i < hi {
+					fmut(append(append([]string{}, ch[:i]...), ch[i+1:]...), "delete")
+					for _, a := range fc.alphabet {
+						if a != ch[i] {
+							sub := append([]string{}, ch...)
+							sub[i] = a
+							fmut(sub, "substitute")
+						}
+					}
+					if i+1 < hi {
+						sw := append([]string{}, ch...)
+						sw[i], sw[i+1] = sw[i+1], sw[i]
+						fmut(sw, "swap")
+					}
+				}
+			}
+		}
+		c.Rep.Extra["focus_"+fc.name] = map[string]int{"valid": len(fchunks), "mutants": nmut, "bound": fc.bound}
 	}
 	c.Rep.Extra["mutants_classified_invalid"] = len(seenM)
 	// ---- fast path: parser.BeginAnalyze on batches ----
